@@ -14,6 +14,12 @@ note_new = note_old.rstrip('\n') + '\n'
 if done:
     note_new += ('Other people have ALREADY produced the following changes for this property; yours must be DIFFERENT — attack another clause of the statement, '
                  'another function/site, or another mechanism (look at ALL the anchored files and at code they depend on, including helper modules), not a variation of these:\n' + '\n'.join(done) + '\n')
+if tag not in ('r2',):
+    note_new += ('Kinds of edit that have proved realistic so far (use them as inspiration, pick sites nobody has touched yet): handling of defaults / optional arguments '
+                 '(`x or default` where 0, empty or False are legal), timeouts and deadlines (what they cover, whether they shrink, what happens when they expire), the scope of an exception handler or of an '
+                 'isinstance test (narrower or wider by one class), the boundary of a lock / critical section, the order of two clean-up or hand-over steps, sharing instead of copying a mutable object, '
+                 'off-by-one in a counter / size / comparison, a standard-library call replaced by a near-equivalent that differs in a corner (non-blocking variant, different default, different exception type), '
+                 'a helper that returns early on a new condition, state initialised at the wrong time (constructor vs. start).\n')
 note_new += f'Put your deliverables in out/{tag}m1 and out/{tag}m2 (instead of out/m1 and out/m2).\n'
 txt = base.replace(note_old, note_new)
 txt = txt.replace('("m1" and "m2")', f'("{tag}m1" and "{tag}m2")').replace('out/m1/', f'out/{tag}m1/').replace('out/m2/', f'out/{tag}m2/')
